@@ -1,12 +1,90 @@
 /-
-ArtModel.Ops.Icvi — protocol handler(s) for the `icvi` operation family.
+ArtModel.Ops.Icvi — protocol handler(s) for the `icvi` operation family (C15).
 Core Lean only.  `none` = malformed line (the driver prints `bad-op`).
+All numbers are exact rationals (`R` lines).
+
+  icvi seq <dim> <ops>
+      <ops> = `;`-separated list, executed left to right on a fresh `iCVI_CH`:
+        a:<label>:<vector>          add_sample(x, label)  then update
+        s:<old>:<new>:<vector>      switch_label(x, old, new) then update
+        qa:<label>:<vector>         add_sample(x, label)   WITHOUT update (candidate only)
+        qs:<old>:<new>:<vector>     switch_label(x, old, new) WITHOUT update
+      <vector> = `,`-separated rationals `p/q` (length <dim>).
+      → one field per op, joined by `;`:
+        a / s  :  <criterion_value>:<n_samples>:<WGSS>:<len(CD)>      state after the update
+        qa / qs:  q<criterion_value of the candidate>
+        err       the Python raised (unknown label, cluster of 1); execution stops there
+  icvi batch <points> <labels>
+      <points> = rows separated by `|`, <labels> = `,`-separated naturals
+      → `ch=<Calinski-Harabasz index of the labelled data, 0 while undefined>`
 -/
 import ArtModel.Driver
+import ArtModel.ICVI
 
 namespace Art.Ops
 
+open Art.Drv Art.ICVI
+
+private def showSt (s : State Rat) : String :=
+  s!"{showRat s.crit}:{s.n}:{showRat s.WGSS}:{s.CD.length}"
+
+/-- run the textual ops; returns the output fields -/
+private def runSeq (d : Nat) : State Rat → List String → Option (List String)
+  | _, [] => some []
+  | st, o :: os => do
+    match o.splitOn ":" with
+    | ["a", l, v] =>
+      let l ← l.toNat?
+      let x ← parseVec (α := Rat) v
+      if x.length != d then none
+      else
+        let st' := update st (addSample st x l)
+        let rest ← runSeq d st' os
+        some (showSt st' :: rest)
+    | ["s", lo, ln, v] =>
+      let lo ← lo.toNat?
+      let ln ← ln.toNat?
+      let x ← parseVec (α := Rat) v
+      if x.length != d then none
+      else
+        match switchLabel st x lo ln with
+        | none => some ["err"]
+        | some p =>
+          let st' := update st p
+          let rest ← runSeq d st' os
+          some (showSt st' :: rest)
+    | ["qa", l, v] =>
+      let l ← l.toNat?
+      let x ← parseVec (α := Rat) v
+      if x.length != d then none
+      else
+        let rest ← runSeq d st os
+        some (("q" ++ showRat (addSample st x l).crit) :: rest)
+    | ["qs", lo, ln, v] =>
+      let lo ← lo.toNat?
+      let ln ← ln.toNat?
+      let x ← parseVec (α := Rat) v
+      if x.length != d then none
+      else
+        match switchLabel st x lo ln with
+        | none => some ["err"]
+        | some p =>
+          let rest ← runSeq d st os
+          some (("q" ++ showRat p.crit) :: rest)
+    | _ => none
+
 /-- handler for lines starting with `icvi `; `a` = the remaining space-separated fields -/
-def icvi (_a : List String) : Option String := none
+def icvi (a : List String) : Option String := do
+  match a with
+  | ["seq", d, ops] =>
+    let d ← d.toNat?
+    let out ← runSeq d (init d) (splitList ops ";")
+    some (if out.isEmpty then "-" else ";".intercalate out)
+  | ["batch", pts, labs] =>
+    let X ← parseMat (α := Rat) pts
+    let ls ← (splitList labs).mapM String.toNat?
+    if X.length != ls.length then none
+    else some s!"ch={showRat (chBatch (X.zip ls))}"
+  | _ => none
 
 end Art.Ops
